@@ -41,6 +41,9 @@ def gen(tier, seed):
                                                                      "pre: 0 <= lv <= 4 and 0 <= u <= 10 and eu == (u * 5 + lv) % 11 and 0 <= opt <= 2 and ex == (u + lv) % 3 and 0 <= g <= 1"],
         "the arrays handed to the native engine (state, volume, k, D, sample times, t_max, dt, interval), re-expressed in SI, do not depend on the units used to describe the script, for every engine kind and output units system",
         "lv: int, u: int, eu: int, opt: int, ex: int, g: int", viol="what reaches the engine depends on the units used to describe the model")
+    add("mixed_array", "c04-mixed-array", "mixed_array(u1, u2, u3)", ["pre: 0 <= u1 <= 10 and 0 <= u2 <= 10 and 0 <= u3 <= 10"],
+        "arrays built from quantities written in different unit systems (quantity objects, text, bare numbers; node volumes with per-node units; sample times) keep every element's physical value, for every triple of catalogue systems",
+        "u1: int, u2: int, u3: int", viol="an explicit-unit quantity inside an array loses its physical value")
     add("output", "c04-output", "output_scaling(eu, opt)", ["pre: 0 <= eu <= 10 and 0 <= opt <= 2"], "engine output is reported in the script's units with the same SI value (every catalogue system, every engine kind)", "eu: int, opt: int")
     return "\n".join(L), conds
 
